@@ -128,7 +128,7 @@ def run(tier="quick", seed=0):
         raise tlc.MachineryError("quick bases not in TLC's enumeration")
     thrown = 150
     jobs = []
-    seeds = [seed + 11, seed + 12] if thorough else [seed + 11]
+    seeds = [seed + 11, seed + 12, seed + 13] if thorough else [seed + 11]
     for b in bases:
         for sd in seeds:
             for sch in (SCHEDS if thorough or b in QUICK_BASES[::2] else ["sync", "threads-4"]):
